@@ -166,33 +166,39 @@ func execC42(env *sim.Env, p *sim.Plan) *sim.Result {
 					idxOf[ids[k].id] = k
 				}
 				nodesDisagree := false
-				for _, k := range have {
-					nd := in.pool.GetNode(ids[k].id)
-					if nd == nil {
-						viol("pool", "pool/node-missing", fmt.Sprintf("inst %d lost sharder %d", i, k))
-						continue
+				pnc := guard(func() {
+					for _, k := range have {
+						nd := in.pool.GetNode(ids[k].id)
+						if nd == nil {
+							viol("pool", "pool/node-missing", fmt.Sprintf("inst %d lost sharder %d", i, k))
+							return
+						}
+						is := in.c.IsBlockSharder(b, nd)
+						if is {
+							set = append(set, fmt.Sprint(k))
+						}
+						if in.c.IsBlockSharderFromHash(rn, h, nd) {
+							viaHash = append(viaHash, fmt.Sprint(k))
+						}
+						can, nodes := in.c.CanShardBlockWithReplicators(rn, h, nd)
+						if can != is {
+							nodesDisagree = true
+						}
+						var l []string
+						for _, x := range nodes {
+							l = append(l, fmt.Sprint(idxOf[x.ID]))
+						}
+						sort.Strings(l)
+						if viaNodes == nil {
+							viaNodes = l
+						} else if strings.Join(viaNodes, ",") != strings.Join(l, ",") {
+							nodesDisagree = true
+						}
 					}
-					is := in.c.IsBlockSharder(b, nd)
-					if is {
-						set = append(set, fmt.Sprint(k))
-					}
-					if in.c.IsBlockSharderFromHash(rn, h, nd) {
-						viaHash = append(viaHash, fmt.Sprint(k))
-					}
-					can, nodes := in.c.CanShardBlockWithReplicators(rn, h, nd)
-					if can != is {
-						nodesDisagree = true
-					}
-					var l []string
-					for _, x := range nodes {
-						l = append(l, fmt.Sprint(idxOf[x.ID]))
-					}
-					sort.Strings(l)
-					if viaNodes == nil {
-						viaNodes = l
-					} else if strings.Join(viaNodes, ",") != strings.Join(l, ",") {
-						nodesDisagree = true
-					}
+				})
+				if pnc != "" {
+					viol("replicators", "repl/panic", fmt.Sprintf("inst %d hash %s R=%d n=%d: %s", i, short(h), repl, n, pnc))
+					continue
 				}
 				sset := append([]string(nil), set...)
 				sort.Strings(sset)
